@@ -208,6 +208,9 @@ static void run(int nthreads, int steps, uint64_t seed)
 {
   std::vector<TResult> res(nthreads);
   std::vector<std::thread> th;
+  // set once, before the workers exist: a crash in any of them is attributed to this workload (the thread-local operations
+  // never crash when a thread runs alone)
+  mon::ctx("threads/%s | %d threads, %d operations each", be::BT<B>::name(), nthreads, steps);
   std::atomic<int> gate{ nthreads };
   for (int t = 0; t < nthreads; t++) th.emplace_back(worker<B>, t, seed * 1000 + t, steps, &res[t], &gate);
   for (auto& t : th) t.join();
